@@ -84,7 +84,7 @@ def main():
         reported, errors = [], []
         for i in range(1, 21):
             p = 'C%02d' % i
-            c = sh('/venv/bin/python /verif/sa/check.py %s --repo %s --no-evidence' % (p, wt))
+            c = sh('/venv/bin/python %s/sa/check.py %s --repo %s --no-evidence' % (os.environ.get('VERIF_DIR', '/verif'), p, wt))
             for line in c.stdout.splitlines():
                 if line.startswith('  C') and ':' in line:
                     reported.append(line.strip()[:260])
